@@ -172,6 +172,14 @@ def swizzle_masks(n, tier, rng, two_input=False):
         add('blend', [i + n * (i % 2) for i in range(n)]); add('blend2', [i + n * ((i // 2) % 2) for i in range(n)])
         add('lo_x_hi_y', [i if i < n // 2 else n + i for i in range(n)]); add('lo_y_hi_x', [n + i if i < n // 2 else i for i in range(n)])
         if full: add('xrev_y', [n - 1 - i if i % 2 else n + i for i in range(n)])
+    if n == 4 and two_input:
+        # one index off the in-lane fast paths (vshufpd / shufps style packs): every position of four base packs takes every value in
+        # [0, 2n) while the other positions stay inside the fast-path ranges (seed C19-5: a lost lower bound on one index of shuffle<double, avx>)
+        for bi, base in enumerate(((0, 4, 2, 6), (1, 5, 3, 7), (0, 1, 4, 5), (2, 3, 6, 7))):
+            for pos in range(4):
+                for v in range(8):
+                    t = list(base); t[pos] = v
+                    add('near%d_%d_%d' % (bi, pos, v), t)
     if n == 4 and not two_input and tier == 'thorough':
         for v in range(256): add('all%03d' % v, [(v >> (2 * i)) & 3 for i in range(4)])
     R = 3 if tier == 'quick' else 48
